@@ -31,6 +31,10 @@ REGRESSOR = ("sktime/regression/interval_based/_tsf.py", "TimeSeriesForestRegres
 
 IDENTITY_CALLS = {"numpy.asarray", "numpy.array", "numpy.int", "numpy.int64", "numpy.int32", "numpy.int_",
                   "builtins.int", "builtins.list"}
+# value-changing (not order-preserving-and-injective) maps: an arg-max taken after them need not be an arg-max before
+LOSSY_CALLS = {"numpy.round", "numpy.around", "numpy.round_", "numpy.floor", "numpy.ceil", "numpy.trunc", "numpy.rint",
+               "numpy.fix", "numpy.sign", "numpy.clip", "numpy.digitize", "builtins.round", "numpy.negative"}
+LOSSY_METHODS = {"round", "clip"}
 MAX_CALLS = {"numpy.max", "numpy.amax", "builtins.max"}
 MIN_CALLS = {"numpy.min", "numpy.amin", "builtins.min"}
 NONZERO_CALLS = {"numpy.flatnonzero"}
@@ -159,12 +163,12 @@ class PredictEval:
                 continue  # other expression statements (guards, validators) do not define the result
             if isinstance(st, ast.For) and not st.orelse and isinstance(st.target, ast.Name):
                 it = self.ev(st.iter)
-                if it == PROBA or it == ("range", NROWS):
+                if self.rows_of(it) or it == ("range", NROWS):
                     if loop is not None:
                         self._kill(st)
                         continue
                     saved = self.env.get(st.target.id)
-                    self.env[st.target.id] = ROW if it == PROBA else ROWIDX
+                    self.env[st.target.id] = self.rows_of(it) or ROWIDX
                     inner = {}
                     simple = all(isinstance(b, (ast.Assign, ast.Expr)) for b in st.body)
                     if simple:
@@ -226,8 +230,8 @@ class PredictEval:
             idx = self.ev(e.slice)
             if base == ("shape",) and idx == ("const", 0):
                 return NROWS
-            if base == PROBA and idx == ROWIDX:
-                return ROW
+            if idx == ROWIDX and self.rows_of(base):
+                return self.rows_of(base)
             if base[0] in ("self", "slice", "encoder-classes") or (base[0] == "opaque" and base[1].startswith("self.")):
                 if idx[0] == "map":
                     return ("map", ("index", base, idx[1]))
@@ -238,9 +242,9 @@ class PredictEval:
                 return ("opaque", "comprehension")
             g = e.generators[0]
             it = self.ev(g.iter)
-            if it == PROBA or it == ("range", NROWS):
+            if self.rows_of(it) or it == ("range", NROWS):
                 saved = self.env.get(g.target.id)
-                self.env[g.target.id] = ROW if it == PROBA else ROWIDX
+                self.env[g.target.id] = self.rows_of(it) or ROWIDX
                 body = self.ev(e.elt)
                 if saved is None:
                     self.env.pop(g.target.id, None)
@@ -285,6 +289,18 @@ class PredictEval:
             return ("opaque", "range")
         if ext in IDENTITY_CALLS and len(c.args) == 1 and not c.keywords:
             return self.ev(c.args[0])
+        if ext == "numpy.copy" and len(c.args) == 1:
+            return self.ev(c.args[0])
+        if isinstance(f, ast.Attribute) and f.attr == "copy" and not c.args and ext is None:
+            return self.ev(f.value)
+        if ext in LOSSY_CALLS and c.args:
+            v = self.ev(c.args[0])
+            if v in (PROBA, ROW) or v[0] == "lossy":
+                return ("lossy", ext, v)
+        if isinstance(f, ast.Attribute) and f.attr in LOSSY_METHODS and ext is None:
+            v = self.ev(f.value)
+            if v in (PROBA, ROW) or v[0] == "lossy":
+                return ("lossy", "." + f.attr, v)
         if ext in ("numpy.argmax", "numpy.argmin") and c.args:
             return self.arg_select(ext.split(".")[1], self.ev(c.args[0]), c.args[1] if len(c.args) > 1 else kw(c, "axis"))
         if isinstance(f, ast.Attribute) and f.attr in ("argmax", "argmin") and ext is None:
@@ -322,14 +338,23 @@ class PredictEval:
             return ("delegate", f.value.attr, f.attr, tuple(self.ev(a) for a in c.args))
         return ("opaque", astq.canon(c)[:80])
 
+    def rows_of(self, it):
+        """Term of one element when iterating ``it`` (the probability matrix, possibly under lossy maps)."""
+        if it == PROBA:
+            return ROW
+        if it[0] == "lossy":
+            inner = self.rows_of(it[2])
+            return ("lossy", it[1], inner) if inner else None
+        return None
+
     def arg_select(self, which, v, axis):
         ax = const(axis) if axis is not None else None
         if axis is not None and ax is None:
             return ("opaque", "%s with non-literal axis" % which)
         if v == ROW and ax in (None, 0, -1):
             return (which, ROW)
-        if v == PROBA and ax in (1, -1):
-            return ("map", (which, ROW))
+        if ax in (1, -1) and self.rows_of(v):
+            return ("map", (which, self.rows_of(v)))
         if v == PROBA:
             return (which, PROBA, ("axis", ax))
         return (which, v)
@@ -552,6 +577,40 @@ def unwrap_parallel(scope, e):
     return e
 
 
+def as_comprehension(fn, v):
+    """(target, iter, elt, ifs) of `[elt for target in iter]`, also when written as
+    `acc = []` / `for target in iter: acc.append(elt)` with no other use of acc in between."""
+    if isinstance(v, (ast.ListComp, ast.GeneratorExp)):
+        if len(v.generators) != 1:
+            return None
+        g = v.generators[0]
+        return g.target, g.iter, v.elt, list(g.ifs)
+    if isinstance(v, ast.Name):
+        inits = [x for x in astq.assigned_values(fn, v.id)]
+        if len(inits) != 1 or not ((isinstance(inits[0], ast.List) and not inits[0].elts) or (
+                isinstance(inits[0], ast.Call) and dotted(inits[0].func) == "list" and not inits[0].args)):
+            return None
+        appends = []
+        for n in astq.walk_no_nested(fn):
+            if isinstance(n, ast.For) and not n.orelse:
+                for st in n.body:
+                    if isinstance(st, ast.Expr) and isinstance(st.value, ast.Call) and isinstance(st.value.func, ast.Attribute) \
+                            and st.value.func.attr == "append" and isinstance(st.value.func.value, ast.Name) \
+                            and st.value.func.value.id == v.id and len(st.value.args) == 1:
+                        appends.append((n, st))
+        if len(appends) != 1:
+            return None
+        loop, st = appends[0]
+        if len(loop.body) != 1:
+            return None
+        # acc must not be touched elsewhere (besides init, the append and its final read)
+        loads = [n for n in astq.walk_no_nested(fn) if isinstance(n, ast.Name) and n.id == v.id]
+        if len(loads) > 3:
+            return None
+        return loop.target, loop.iter, st.value.args[0], []
+    return None
+
+
 def single_return(fn):
     rets = astq.returns(fn)
     return rets[0] if len(rets) == 1 else None
@@ -595,6 +654,10 @@ class Checker:
             table, sel = term[1][1], term[1][2]
             if sel == ("argmax", ROW):
                 ctx.ok("R1", name + ".predict:select", "each row of the own predict_proba is decoded at an arg-max position", loc)
+            elif sel[0] == "argmax" and sel[1][0] == "lossy" and self._lossy_root(sel[1]) == ROW:
+                ctx.violation("R1", name + ".predict:select", "the arg-max is taken over %s of the probability row: a value-changing "
+                              "map can create ties or move the maximum, so the decoded label need not attain the maximal "
+                              "predicted probability" % " of ".join(self._lossy_chain(sel[1])), loc, witness={"term": show(term)})
             elif sel[0] in ("argmin", "argmax", "const", "rowidx", "max"):
                 ctx.violation("R1", name + ".predict:select", "the label index is %s, not an arg-max of the instance's "
                               "probability row" % show(sel), loc, witness={"term": show(term)})
@@ -615,6 +678,20 @@ class Checker:
             return self.r1_onehot(cls)
         ctx.undecided("R1", c, "predict does not reduce to table[argmax(row)]: %s %s" % (show(term)[:120], ev.problems), loc)
         return None
+
+    @staticmethod
+    def _lossy_root(t):
+        while isinstance(t, tuple) and t and t[0] == "lossy":
+            t = t[2]
+        return t
+
+    @staticmethod
+    def _lossy_chain(t):
+        out = []
+        while isinstance(t, tuple) and t and t[0] == "lossy":
+            out.append(t[1])
+            t = t[2]
+        return out
 
     def r1_table(self, cls, table, loc):
         """The decoding table must be the one that defines the column order."""
@@ -1138,6 +1215,151 @@ class Checker:
             coll, weights, len(ea)), "self.%s and self.%s are not changed in lock step: %s vs %s" % (
             coll, weights, [(a, b) for a, b, _ in ea], [(a, b) for a, b, _ in eb]), self.loc(k, fn))
 
+    # ------------------------------------------------------------------------------------ R2: column count
+    def r2_column_count(self, cls):
+        """The number of probability columns (self.<K> in np.zeros((n, self.K)) / np.ones(self.K) of predict_proba) must be
+        the number of distinct labels of the *current* fit, not state carried across fits."""
+        ctx, name = self.ctx, cls.name
+        hp = self.method(cls, "predict_proba")
+        hf = self.method(cls, "fit")
+        if hp is None or hf is None:
+            return
+        k, fn = hp
+        scope = Scope(self.repo, k.module, fn)
+        attrs = set()
+        for c0 in astq.calls(fn):
+            ext = scope.ext(c0.func)
+            if ext in ("numpy.zeros", "numpy.ones", "numpy.empty", "numpy.full") and c0.args:
+                shp = c0.args[0]
+                last = shp.elts[-1] if isinstance(shp, (ast.Tuple, ast.List)) and shp.elts else shp
+                if is_self_attr(last):
+                    attrs.add(last.attr)
+        kf, ff = hf
+        fi = FitInfo(self.repo, kf.module, cls, kf, ff, self.lookup)
+        g = self.flow.cfg(ff)
+        for attr in sorted(attrs):
+            c = "%s.fit:%s" % (name, attr)
+            stores = [(v, st) for a, v, st in astq.self_attr_stores(ff) if a == attr]
+            if not stores:
+                ctx.violation("R2", c, "predict_proba sizes its columns with self.%s, which fit never sets from the training labels"
+                              % attr, self.loc(kf, ff))
+                continue
+            for v, st in stores:
+                verdict, why = self.is_label_count(fi, g, ff, v, st)
+                ctx.check(verdict, "R2", c, "self.%s = number of distinct labels of this fit (%s)" % (attr, why),
+                          "self.%s = %s: %s" % (attr, astq.canon(v)[:60] if v is not None else "<unpacked>", why), self.loc(kf, st))
+
+    def is_label_count(self, fi, g, fn, v, st):
+        """(True/False/None, reason) -- v counts the distinct labels of the current fit."""
+        sc = fi.scope
+
+        def unique_of_y(e):
+            return isinstance(e, ast.Call) and sc.ext(e.func) == "numpy.unique" and e.args and fi.kind(e.args[0]) == "y"
+
+        def fresh_label_table(e):
+            """e holds one entry per distinct current label: np.unique(y), a local bound to it (or to its counts),
+            or a self attribute (re)assigned from the current labels earlier on every path of this fit."""
+            if unique_of_y(e) and not e.keywords:
+                return True, "np.unique(y)"
+            if isinstance(e, ast.Name):
+                for n in astq.walk_no_nested(fn):
+                    if isinstance(n, ast.Assign) and len(n.targets) == 1:
+                        t = n.targets[0]
+                        if isinstance(t, ast.Name) and t.id == e.id and unique_of_y(n.value) and not n.value.keywords:
+                            return True, "local np.unique(y)"
+                        if isinstance(t, ast.Tuple) and any(isinstance(x, ast.Name) and x.id == e.id for x in t.elts) \
+                                and unique_of_y(n.value):
+                            return True, "np.unique(y, return_counts=True)"
+                return None, "local %s not interpretable" % e.id
+            if is_self_attr(e):
+                a = e.attr
+                assigns = [s0 for a0, v0, s0 in astq.self_attr_stores(fn) if a0 == a and isinstance(s0, ast.Assign)
+                           and any(is_self_attr(t, a) for t in s0.targets)]
+                nd = g.node_of(st)
+                good_nodes = []
+                for s0 in assigns:
+                    val = s0.value
+                    if fi.sorted_unique_of_labels(val) or (isinstance(val, ast.Attribute) and val.attr == "classes_"):
+                        good_nodes.append(g.node_of(s0))
+                if not assigns:
+                    return False, "self.%s is never re-assigned in fit (only updated in place): it keeps entries of earlier " \
+                                  "fits, so the count is stale after a refit on another label set" % a
+                if good_nodes and nd is not None:
+                    IN, _ = g.forward_must(lambda n: any(n is x for x in good_nodes))
+                    if IN.get(nd.id):
+                        return True, "len of self.%s assigned from the current labels earlier in fit" % a
+                    return False, "self.%s is read before it is assigned from the current labels" % a
+                return None, "self.%s not interpretable" % a
+            return None, "not interpretable"
+
+        if v is None:
+            # tuple unpacking: cls, class_counts = np.unique(y, return_counts=True) style is handled through locals only
+            return None, "assigned by unpacking"
+        # X.shape[0] forms: <table>.shape[0]
+        if isinstance(v, ast.Subscript) and const(v.slice) == 0 and isinstance(v.value, ast.Attribute) and v.value.attr == "shape":
+            return fresh_label_table(v.value.value)
+        if isinstance(v, ast.Call) and sc.ext(v.func) == "builtins.len" and len(v.args) == 1:
+            return fresh_label_table(v.args[0])
+        if isinstance(v, ast.Constant):
+            return (True, "constant initialiser") if v.value in (0, None) else (False, "constant")
+        return None, "not interpretable"
+
+    # ------------------------------------------------------------------------------------ R2: column specification
+    def r2_column_spec(self, cls):
+        """Members must be addressed at predict time by the declared column specification: what fit stores in
+        self._columns is the user's specification (or the result of the user's callable), not positions resolved
+        against the fit-time frame."""
+        ctx, name = self.ctx, cls.name
+        hit = self.method(cls, "_validate_column_callables")
+        c = name + ".fit:column-spec"
+        if hit is None:
+            ctx.undecided("R2", c, "_validate_column_callables not found", None)
+            return
+        k, fn = hit
+        loc = self.loc(k, fn)
+        pos = astq.param_names(fn, skip_self=True)
+        stores = [(v, st) for a, v, st in astq.self_attr_stores(fn) if a == "_columns"]
+        if len(stores) != 1 or not isinstance(stores[0][0], (ast.Name, ast.ListComp)):
+            ctx.undecided("R2", c, "self._columns is not assigned from one local list", loc)
+            return
+        acc = stores[0][0]
+        comp = as_comprehension(fn, acc)
+        if comp is None and isinstance(acc, ast.Name):
+            vals = astq.assigned_values(fn, acc.id)
+            comp = as_comprehension(fn, vals[0]) if len(vals) == 1 else None
+        loops = [n for n in astq.walk_no_nested(fn) if isinstance(n, ast.For)]
+        appended = [c0.args[0] for c0 in astq.calls(fn) if isinstance(c0.func, ast.Attribute) and c0.func.attr == "append"
+                    and isinstance(c0.func.value, ast.Name) and isinstance(acc, ast.Name) and c0.func.value.id == acc.id
+                    and len(c0.args) == 1]
+        if comp is not None and not appended:
+            appended, loop_target, loop_iter = [comp[2]], comp[0], comp[1]
+        elif len(loops) == 1 and appended:
+            loop_target, loop_iter = loops[0].target, loops[0].iter
+        else:
+            ctx.undecided("R2", c, "column list is not built by one loop", loc)
+            return
+        spec = loop_target.elts[2].id if isinstance(loop_target, ast.Tuple) and len(loop_target.elts) == 3 \
+            and isinstance(loop_target.elts[2], ast.Name) else None
+        if spec is None or not is_self_attr(loop_iter, "estimators"):
+            ctx.undecided("R2", c, "loop is not over the (name, estimator, column) triples of self.estimators", loc)
+            return
+        rebinds = [v for v in astq.assigned_values(fn, spec)]
+        ok_rebind = all(isinstance(v, ast.Call) and isinstance(v.func, ast.Name) and v.func.id == spec for v in rebinds)
+        for a in appended:
+            if isinstance(a, ast.Name) and a.id == spec and ok_rebind:
+                ctx.ok("R2", c, "self._columns keeps the declared column specification (or the user callable's result)", loc)
+            elif isinstance(a, ast.IfExp) and all(
+                    (isinstance(x, ast.Name) and x.id == spec) or (isinstance(x, ast.Call) and isinstance(x.func, ast.Name)
+                                                                   and x.func.id == spec) for x in (a.body, a.orelse)):
+                ctx.ok("R2", c, "self._columns keeps the declared column specification (or the user callable's result)", loc)
+            elif isinstance(a, ast.Call) and not (isinstance(a.func, ast.Name) and a.func.id == spec) and any(
+                    isinstance(x, ast.Name) and x.id in pos for x in ast.walk(a)):
+                ctx.violation("R2", c, "fit stores %s in self._columns: the column specification is resolved against the fit-time "
+                              "frame, so members are addressed by fit-time positions at predict time (a frame with the same named "
+                              "columns in another order feeds them other variables)" % astq.canon(a)[:70], self.loc(k, a))
+            else:
+                ctx.undecided("R2", c, "stored column value %s not interpretable" % astq.canon(a)[:60], self.loc(k, a))
+
     # ------------------------------------------------------------------------------------ R2: column ensemble
     def r2_column_ensemble(self, cls):
         ctx, name = self.ctx, cls.name
@@ -1161,30 +1383,32 @@ class Checker:
                 k2, fn2 = hit
                 r2 = single_return(fn2)
                 sc2 = Scope(self.repo, k2.module, fn2)
-                v = astq.inline_locals(fn2, r2.value) if r2 is not None else None
-                if isinstance(v, ast.Call) and sc2.ext(v.func) in IDENTITY_CALLS and v.args:
-                    v = v.args[0]
-                inner = (k2, fn2, v)
-        if inner is None or not isinstance(inner[2], (ast.ListComp, ast.GeneratorExp)) or len(inner[2].generators) != 1:
-            ctx.undecided("R2", c + ":members", "member probabilities are not collected by one comprehension", loc)
+                v = r2.value if r2 is not None else None
+                for _ in range(3):
+                    if isinstance(v, ast.Call) and sc2.ext(v.func) in IDENTITY_CALLS and v.args:
+                        v = v.args[0]
+                    elif isinstance(v, ast.Name) and as_comprehension(fn2, v) is None:
+                        vals = astq.assigned_values(fn2, v.id)
+                        v = vals[0] if len(vals) == 1 else v
+                inner = (k2, fn2, as_comprehension(fn2, v) if v is not None else None)
+        if inner is None or inner[2] is None:
+            ctx.undecided("R2", c + ":members", "member probabilities are not collected by one comprehension / append loop", loc)
             return
-        k2, fn2, comp = inner
-        g = comp.generators[0]
-        names = [e0.id for e0 in g.target.elts] if isinstance(g.target, ast.Tuple) and all(
-            isinstance(e0, ast.Name) for e0 in g.target.elts) else []
-        elt = comp.elt
+        k2, fn2, (g_target, g_iter, elt, g_ifs) = inner
+        names = [e0.id for e0 in g_target.elts] if isinstance(g_target, ast.Tuple) and all(
+            isinstance(e0, ast.Name) for e0 in g_target.elts) else []
         good = None
         if len(names) == 3 and isinstance(elt, ast.Call) and isinstance(elt.func, ast.Attribute) and isinstance(elt.func.value, ast.Name):
             est, colv = names[1], names[2]
             arg = elt.args[0] if elt.args else None
             good = (elt.func.attr == "predict_proba" and elt.func.value.id == est and isinstance(arg, ast.Call)
                     and dotted(arg.func) == "_get_column" and len(arg.args) == 2 and astq.canon(arg.args[1]) == colv
-                    and not g.ifs)
+                    and not g_ifs)
         ctx.check(good, "R2", c + ":members", "each member predicts on its own column selection", "member term %s is not "
                   "estimator.predict_proba(_get_column(X, its column))" % astq.canon(elt)[:80], self.loc(k2, fn2))
         # fit iterates the same triples and fits each member on its own column
         kf, ff = self.method(cls, "fit")
-        fit_iter = [n for n in astq.walk_no_nested(ff) if isinstance(n, ast.For) and astq.canon(n.iter) == astq.canon(g.iter)]
+        fit_iter = [n for n in astq.walk_no_nested(ff) if isinstance(n, ast.For) and astq.canon(n.iter) == astq.canon(g_iter)]
         ok = None
         if len(fit_iter) == 1 and isinstance(fit_iter[0].target, ast.Tuple) and len(fit_iter[0].target.elts) == 3:
             fn_names = [x.id for x in fit_iter[0].target.elts if isinstance(x, ast.Name)]
@@ -1194,7 +1418,7 @@ class Checker:
         elif not fit_iter:
             ok = False
         ctx.check(ok, "R2", name + ".fit:members", "fit iterates the same (name, estimator, column) triples and fits each member on its "
-                  "own column", "fit does not fit the members over %s on their own columns" % astq.canon(g.iter)[:60], self.loc(kf, ff))
+                  "own column", "fit does not fit the members over %s on their own columns" % astq.canon(g_iter)[:60], self.loc(kf, ff))
 
     # ------------------------------------------------------------------------------------ R3
     def r3(self, cls, methods=("predict", "predict_proba"), score="accuracy"):
@@ -1288,7 +1512,9 @@ def run(ctx):
                 "fitted LabelEncoder; delegating and nearest-neighbour classifiers have their own agreement clause); R2 the divisor of "
                 "predict_proba equals the number / summed weight of the members actually accumulated, votes land in "
                 "class_dictionary = enumerate(classes_), members whose matrices are added column-wise are fitted on the full "
-                "label vector; R3 not-fitted guard (interprocedural must-call) and score = accuracy/r2 of predict. Probability "
+                "label vector; the column count self.n_classes derives from the current fit's labels (not from state carried "
+                "across fits); the column ensemble keeps the declared column specification for predict time; an arg-max "
+                "taken after a value-changing map (rounding, clipping, ...) of the probabilities is a violation; R3 not-fitted guard (interprocedural must-call) and score = accuracy/r2 of predict. Probability "
                 "values, tree outputs and run-time label dtypes are not decided.")
     ctx.assume("sklearn classifiers order predict_proba columns by their classes_ = sorted distinct labels passed to fit; "
                "class_distribution(y)[0][0] and np.unique(y) are the sorted distinct labels; LabelEncoder.classes_ likewise")
@@ -1308,6 +1534,8 @@ def run(ctx):
         elif cls.name in COLUMN:
             ck.r2_column_ensemble(cls)
             ck.r2_member_labels(cls)
+            ck.r2_column_spec(cls)
+        ck.r2_column_count(cls)
         ck.r3(cls)
     ck.r3(base, methods=("predict",))
     reg = repo.cls(REGRESSOR[0] + ":" + REGRESSOR[1])
@@ -1316,5 +1544,5 @@ def run(ctx):
     rb = repo.cls("sktime/regression/base.py:BaseRegressor")
     ck.score(rb, rb, repo.func("sktime/regression/base.py", "BaseRegressor.score"), "r2")
     ctx.floor("R1", 48)
-    ctx.floor("R2", 58)
+    ctx.floor("R2", 69)
     ctx.floor("R3", 44)
